@@ -62,6 +62,46 @@ func registerSched() {
 		Assume: []string{"min-runtime verdicts are taken only when the workload's start time is more than 5 minutes away from the protection boundary (generator uses now-10h / now-1m with 1h min-runtimes)",
 			"for consolidation the statement does not say which min-runtime applies: a victim counts as protected only if it is inside both the preempt and the reclaim min-runtime",
 			"the commit-together clauses are skipped for an action in which a Bind/Evict call failed"}})
+	var lasso *oracle.Lasso
+	var lassoSt *oracle.Stats
+	const c15Cycles = 24
+	run.Register(&SchedCheck{Id: "C15", Profile: "closed", Quick: 1600, Thorough: 24000, TimeoutCase: 180 * time.Second,
+		Mutate: func(c *spec.Case, seed int64, idx int) {
+			lasso = &oracle.Lasso{}
+			c.Cycles = c15Cycles
+			if c.Meta["tier"] == "thorough" {
+				c.Cycles = 2 * c15Cycles
+			}
+		},
+		Oracle: func(m *oracle.Model, res *sched.CycleResult, after *spec.Objects, c *spec.Case, st *oracle.Stats) []run.Violation {
+			if lasso == nil { // replay
+				lasso = &oracle.Lasso{}
+			}
+			lassoSt = st
+			return lasso.Step(m, res.Events, res.Cycle, st)
+		},
+		StopCase: func() bool { return lasso.Found || lasso.Quiet >= 2 },
+		CaseVerdict: func() string {
+			defer func() { lasso = nil }()
+			if n := len(lasso.States); lassoSt != nil && lasso.StillEvicting(n) {
+				switch {
+				case n <= 4:
+					lassoSt.Inc("evicting_cases_settled_within_4_cycles")
+				case n <= 10:
+					lassoSt.Inc("evicting_cases_settled_within_10_cycles")
+				default:
+					lassoSt.Inc("evicting_cases_longer_than_10_cycles")
+				}
+			}
+			if lasso.Quiet < 2 && lasso.StillEvicting(4) {
+				return fmt.Sprintf("still evicting after %d cycles without returning to a visited state", len(lasso.States))
+			}
+			return ""
+		},
+		NonTrivialFromStats: func(c map[string]int) bool { return c["evictions"] > 0 },
+		RuleText: genRule + "Closed system: evicted pods are re-created pending (same logical pod, new name), binds complete between cycles, no min-runtime, no API faults. Canonical state before every cycle = per (pod group, pod set) the multiset of placements (node + co-sharers of each GPU device | pending). Violation: a canonical state recurs with >= 1 eviction in between. Held: two consecutive cycles without any decision (fixpoint) or the cycle budget (24, thorough 48) ends without evictions in the last 4 cycles. Inconclusive: budget exhausted while still evicting without recurrence. Non-trivial: a case with >= 1 eviction.",
+		Assume: []string{"bounded restatement: no lasso within the cycle budget from the generated initial states; says nothing about longer periods",
+			"identical pods of one pod set are interchangeable in the canonical state"}})
 	var c07in *oracle.C07Input
 	run.Register(&SchedCheck{Id: "C07", Profile: "fairness", Quick: 400, Thorough: 8000,
 		Hooks: func(c *spec.Case, sink *[]run.Violation, st *oracle.Stats) sched.Hooks {
